@@ -4,7 +4,7 @@ DESIGN = {
 }
 _A = ["TLC 1.8 and its Json/IOUtils overrides", "projection of NaiveDateTime to (day number, second of day, nanosecond field) and of TimeDelta to its nanosecond count"]
 PROPS = {
-    "C02": dict(design=["Instant", "Calendar"], drive="C02",
+    "C02": dict(lemmas=["ClockLaws_C02"], design=["Instant", "Calendar"], drive="C02",
                 level_text="Instant.tla defines the nanosecond position of a date-time since 1970 over big integers; MC_Instant checks round trips, floor semantics, the exact "
                            "domain and the i64-nanosecond window against documented anchors; every recorded from_timestamp*/timestamp*/SystemTime call on a boundary lattice "
                            "and random counts (all four units, all nanosecond-field classes) is validated by TLC.",
@@ -14,7 +14,7 @@ PROPS = {
                            "b + (a - b) = a, antisymmetry and whole-day truncation; recorded checked and operator forms on NaiveDateTime, NaiveDate, DateTime<FixedOffset> and the day/week "
                            "iterator episodes near both range ends are validated by TLC.",
                 technique="TLA+ Instant spec: TLC design check + trace validation of checked/operator arithmetic and iterator episodes", assumptions=_A),
-    "C17": dict(design=["Instant"], drive="C17",
+    "C17": dict(lemmas=["ClockLaws_C17"], design=["Instant"], drive="C17",
                 level_text="Rounding.tla characterises truncation / rounding up / rounding (greatest multiple not after, least not before, nearest with ties up) over big integers; "
                            "the harness supplies the multiple's index as a hint that the spec verifies; error classification and sub-second rounding incl. carry and leap seconds are judged by TLC.",
                 technique="TLA+ Rounding spec with verified hints: TLC design check + trace validation of DurationRound/SubsecRound calls", assumptions=_A),
